@@ -35,6 +35,9 @@ def gen_step(rng, kind, doc, texts, round_no, indexed=False):
     if kind == "edit":
         edits = [e for e in editgen.gen_batch(rng, doc, texts, rng.randint(1, 2), KINDS, comment_p=0.0 if indexed else 0.3)
                  if e.get("in_raw")]
+        if not indexed and rng.random() < 0.35:
+            # a quote from the accepted view that ends with a pending insertion of an earlier round
+            edits += [e for e in editgen.gen_cross_ins_edit(rng, doc, texts) if not any(e["pi"] == y["pi"] for y in edits)]
         for i, e in enumerate(edits):
             if e.get("comment"):
                 e["comment"] = f"r{round_no} {e['comment']}"
@@ -188,7 +191,7 @@ def work(case):
         f, ref = step_oracle(cur_doc, step, r, raw_out, ref)
         fails += [f"round {k} ({step['kind']} by {step.get('author')}): {x}" for x in f]
         ix = None
-        if step["kind"] == "edits" and not r["err"]:
+        if step["kind"] == "edits" and not r["err"] and all(e.get("in_raw") for e in step["edits"]):
             # the same edits addressed by offset: the path the Lean model covers; must give the same document
             ie = [dict(e, index=texts["raw"].find(e["target"])) for e in step["edits"]]
             rix = engine_run.run_edits(data, ie, author=step["author"])
@@ -293,6 +296,8 @@ def step_lines(res):
         if r["res"]["err"]:
             continue
         if st["kind"] == "edits":
+            if not r["indexed"]:
+                continue
             lines.append((r, {"op": "apply_indexed", "doc": r["in_doc"], "author": st["author"], "edits": r["indexed"]["edits"]}))
         elif st["kind"] == "actions":
             lines.append((r, {"op": "review", "doc": r["in_doc"], "author": st["author"], "actions": st["actions"]}))
